@@ -11,15 +11,19 @@
 EXTENDS TestCaseGenOps
 
 CONSTANTS Prog,      \* <<ops of worker 1, ops of worker 2, ...>>
-          GroupSeq   \* <<group 1, group 2, ...>>, each group an increasing sequence of worker ids
+          GroupSeq,  \* <<group 1, group 2, ...>>, each group an increasing sequence of worker ids
+          Reduce     \* TRUE: partial-order reduction (a worker whose next step is independent of
+                     \* all others runs first); FALSE: every interleaving of every step
 
 VARIABLES gi,        \* index of the group being explored
           fs,        \* the shared file system
           loc,       \* loc[w]: local state of worker w of the group
           ser,       \* (constant during a behaviour) the tree left by running the group serially
-          alo        \* (constant during a behaviour) alo[w]: what w observes when it runs alone
+          alo,       \* (constant during a behaviour) alo[w]: what w observes when it runs alone
+          shr        \* (constant during a behaviour) [paths |-> paths touched by >= 2 workers of the
+                     \*  group, norem |-> no worker of the group removes or renames anything]
 
-vars == <<gi, fs, loc, ser, alo>>
+vars == <<gi, fs, loc, ser, alo, shr>>
 Grp == GroupSeq[gi]
 Ws  == SeqRange(Grp)
 
@@ -34,16 +38,25 @@ Init == /\ gi \in 1..Len(GroupSeq)
         /\ loc = [w \in SeqRange(GroupSeq[gi]) |-> L0]
         /\ ser = RunSeq(EmptyFs, GroupSeq[gi], Prog, <<>>)
         /\ alo = [w \in SeqRange(GroupSeq[gi]) |-> Alone(w).l]
+        /\ shr = [paths |-> SharedPaths(Prog, SeqRange(GroupSeq[gi])),
+                  norem |-> NoRemovals(Prog, SeqRange(GroupSeq[gi]))]
 
 Cur(w) == Prog[w][loc[w].pc]
 
+(* partial-order reduction: the independent steps (see TestCaseGenOps!IndepStep) commute    *)
+(* with everything the others can do and their outcome cannot be influenced by the others,  *)
+(* so it is enough to run the smallest worker that has one; when nobody has, branch fully.  *)
+Indep(w) == Running(loc[w], Prog[w]) /\ IndepStep(fs, loc[w], Cur(w), shr.paths, shr.norem)
+Sched(w) == ~Reduce \/ LET I == {v \in Ws : Indep(v)} IN I = {} \/ (w \in I /\ \A v \in I : w <= v)
+
 Act(w, kinds) ==
   /\ Running(loc[w], Prog[w])
+  /\ Sched(w)
   /\ Cur(w).k \in kinds
   /\ LET r == StepOp(fs, loc[w], w, Cur(w)) IN
      /\ fs' = r.fs
      /\ loc' = [loc EXCEPT ![w] = r.l]
-  /\ UNCHANGED <<gi, ser, alo>>
+  /\ UNCHANGED <<gi, ser, alo, shr>>
 
 (* one action per kind of step of the code: directory creation (makedirs in cli.py's        *)
 (* output_*_test_case(s)), file creation / writing / closing (open(..., "w"/"wb"),          *)
